@@ -299,6 +299,37 @@ theorem pserLoop_is_iter (eps x a : Rat) (fuel k : Nat) (s : PS) (n : Nat) (h : 
     · cases h
       exact ⟨rfl, le_refl _, hc⟩
 
+/-- every partial sum is at least the first term `1/a`: the rational core of the series never
+    vanishes, however small the positive argument `x` is (denormal doubles included) -/
+theorem pser_sum_ge_first (x a : Rat) (hx : 0 < x) (ha : 0 < a) (n : Nat) : 1 / a ≤ (pserIter x a n).sum := by
+  induction n with
+  | zero => simp [pserIter, pserInit]
+  | succ n ih => exact le_trans ih (le_of_lt (pser_partial_sums_increase x a hx ha n))
+
+/-- **gammaPser_pos**: `GammaPser(x,a) > 0` for every `x > 0`, `a > 0` as soon as `exp` is positive:
+    there is no argument below which the series "underflows to zero" — `P(x,a) ≈ x^a/Γ(a+1)` is
+    of order one for a tiny shape parameter even at denormal `x`. -/
+theorem gammaPser_pos (T : Transc) (hexp : ∀ y, 0 < T.exp y) (eps x a v : Rat) (fuel : Nat) (hx : 0 < x) (ha : 0 < a)
+    (h : gammaPser T eps fuel x a = .ok v) : 0 < v := by
+  unfold gammaPser at h
+  cases hg : gammaLn T a with
+  | error e => rw [hg] at h; cases h
+  | ok gln =>
+    rw [hg] at h
+    simp only at h
+    cases hl : pserLoop eps x fuel (pserInit a) 0 with
+    | none => rw [hl] at h; cases h
+    | some r =>
+      obtain ⟨s, n⟩ := r
+      rw [hl] at h
+      simp only at h
+      cases h
+      have hs : s = pserIter x a n := (pserLoop_is_iter eps x a fuel 0 s n (by simpa [pserIter] using hl)).1
+      have h1 : 0 < s.sum := by
+        rw [hs]
+        exact lt_of_lt_of_le (div_pos zero_lt_one ha) (pser_sum_ge_first x a hx ha n)
+      exact mul_pos h1 (hexp _)
+
 /-! ## Inv_GammaP: guards; the result is never negative -/
 
 /-- **invGammaP_nonneg**: for every glue and every `P`, a returned value is `≥ 0`; the request is
